@@ -28,6 +28,7 @@ import logging
 logger = logging.getLogger(__name__)
 
 import cgi
+import codecs
 import threading
 
 from inspect import isgenerator
@@ -604,6 +605,12 @@ class WsgiApplication(HttpBase):
             # ('text/xml', {'charset': 'utf-8'})
             content_type = cgi.parse_header(content_type)
             charset = content_type[1].get('charset', None)
+
+            if charset is not None:
+                try:
+                    codecs.lookup(charset)
+                except LookupError:
+                    raise ValidationError(charset, "Unknown charset %r")
 
         return self.__wsgi_input_to_iterable(http_env), charset
 
